@@ -85,7 +85,7 @@ class Exec:
     """
 
     def __init__(self, repo: Repo, module: Module, handlers=None, inline=None, mode="R",
-                 implicit_exc=True, feas_timeout_ms=1000, bg=None, numeric=None, trace=None):
+                 implicit_exc=True, feas_timeout_ms=300, bg=None, numeric=None, trace=None):
         self.repo = repo
         self.module = module
         self.handlers = handlers or {}
@@ -335,6 +335,14 @@ class Exec:
                 return h(self, p, [base], {}, node)
             return [(p, Fn("method", (base, attr)))]
         if isinstance(base, Fn) and base.kind == "class":
+            if attr == "model_fields":
+                # pydantic: mapping field name -> FieldInfo (only `.default` is modelled)
+                from .models import default_value
+                pairs = []
+                for f in self.repo.class_fields(base.data):
+                    d = default_value(self, f, p, node) if (f["default"] is not None) else NONE
+                    pairs.append((Str(f["name"]), Obj("pydantic.FieldInfo", {"default": d if d is not None else NONE})))
+                return [(p, Dct(pairs))]
             return [(p, Fn("classattr", (base.data, (attr,))))]
         if isinstance(base, (Lst, Dct, Str, Tup, SetV)):
             return [(p, Fn("method", (base, attr)))]
